@@ -41,7 +41,22 @@ def main():
     def body():
         ctx = Ctx(args.prop, args.tier, seed, level=getattr(mod, 'LEVEL', 'model_checking'))
         if args.replay:
-            return mod.replay(ctx, args.replay)
+            ctx.replay_mode = True
+            import json
+            from tcverif import store_check
+            doc = json.loads(Path(args.replay).read_text())
+            print(f"replaying {args.replay}: {doc.get('what', '')[:400]}")
+            detail = doc.get('detail') or {}
+            if isinstance(detail, dict) and 'behaviour' in detail and 'family' in detail and hasattr(store_check, 'replay_file'):
+                # a StoreAtomic behaviour: re-execute exactly this behaviour on the current tree
+                return store_check.replay_file(ctx, detail, getattr(mod, 'RELEVANT', None))
+            if hasattr(mod, 'replay'):
+                return mod.replay(ctx, doc)
+            # other checks: the file documents the failing case; the case space is enumerated deterministically, so the
+            # check itself is the replay (same seed)
+            ctx.seed = doc.get('seed', ctx.seed)
+            mod.run(ctx)
+            return ctx.finish()
         mod.run(ctx)
         return ctx.finish()
 
